@@ -187,6 +187,9 @@ def run(prog, rep, tier):
     if cf is not None and cf.kind == 'Closure':
         cf = None
     if cf is not None:
+        from ..inline import inlined_body
+        cf_plain = cf
+        cf = inlined_body(prog, cf, skip=('get_extracted_path',))     # the creation (with its error message) may be a private helper
         creates = [b for b in cf.calls() if cnorm(b.term) in ('std::fs::File::create', 'std::fs::File::create_new', 'std::fs::OpenOptions::open', 'std::fs::write')]
         rep.floor('R16.2', len(creates), 1, 'file creations in create_file')
         gps = [b for b in cf.calls() if cnorm(b.term) == 'get_extracted_path']
